@@ -237,6 +237,8 @@ class Tracer(object):
         self.keep_events = keep_events
         self.events = []
         self.inject = None   # callable(project, phase) that may raise (fault injection)
+        self.expected_auto_flag = None   # the CALLER's perform_auto_task_while_absence_time, if it is to be used
+                                         # instead of the project attribute read when a run starts
         self.sim_index = 0
         self.state_reset = True
         self.fresh_start = True
@@ -253,7 +255,7 @@ class Tracer(object):
         if phase == "initialized":
             self.sim_index += 1
             self.absence = tuple(project.absence_time_list)
-            self.auto_flag = bool(project.perform_auto_task_while_absence_time)
+            self.auto_flag = bool(project.perform_auto_task_while_absence_time) if self.expected_auto_flag is None else bool(self.expected_auto_flag)
             self.fresh_start = self.state_reset
             if self.state_reset:
                 self.prev_rec = None
